@@ -153,7 +153,14 @@ def gen_leaf(rng, t, typed=True):
             if rng.random() < 0.7:
                 s["maxLength"] = rng.choice([2, 3, 5])   # always >= the generated minLength
         elif r < 0.45:
-            s["pattern"] = rng.choice([r"^\d+$", r"[a-z]+", r"^ab", r"c$", r"\d{4}-\d{2}-\d{2}", r"a|bc"])
+            s["pattern"] = rng.choice([r"^\d+$", r"[a-z]+", r"^ab", r"c$", r"\d{4}-\d{2}-\d{2}", r"a|bc", r"^a[a-z]*@"])
+            if rng.random() < 0.4:
+                # an annotation-only format next to the pattern, written after or before it
+                f = rng.choice(["email", "email", "hostname", "uri", "idn-email", "regex"])
+                if rng.random() < 0.7:
+                    s["format"] = f
+                else:
+                    s = {k: v for k, v in list(s.items())[:1]} | {"format": f} | {k: v for k, v in list(s.items())[1:]}
         elif r < 0.6:
             s["enum"] = rng.sample(["a", "ab", "abc", "", "1", "true"], rng.choice([1, 2, 3]))
         elif r < 0.68:
@@ -173,7 +180,8 @@ def gen_leaf(rng, t, typed=True):
 
 
 SCALARS = [None, True, False, 0, 1, -1, 2, 3, 5, 7, 10, 11, 100, 1.5, 3.0, 10.5, -0.5, "", "a", "ab", "abc", "abcdef", "1", "12", "true", "null", "x y",
-           "2020-01-02", "2020-01-02T03:04:05", "03:04:05", "P1DT2H", "12345678-1234-5678-1234-567812345678", "127.0.0.1", "bc", "cab"]
+           "2020-01-02", "2020-01-02T03:04:05", "03:04:05", "P1DT2H", "12345678-1234-5678-1234-567812345678", "127.0.0.1", "bc", "cab",
+           "bob@example.com", "ab@c.de", "example.com", "http://a.b/c"]
 
 
 def gen_instance(rng, s, depth=0):
